@@ -30,7 +30,7 @@ ANCHORS = [("leuvenmapmatching/map/sqlite.py", "SqliteMap.bb"),
            ("leuvenmapmatching/map/inmem.py", "InMemMap.edges_nbrto"),
            ("leuvenmapmatching/map/inmem.py", "InMemMap.bb")]
 FLOORS = {"box_queries": 1000, "border_boxes": 150, "match_pairs": 300, "match_pairs_complete": 100,
-          "nbr_queries": 1500, "single_insert_graphs": 50, "big_magnitude_graphs": 50, "bb_compared": 200, "repeated_node_adds": 200}
+          "nbr_queries": 1500, "single_insert_graphs": 50, "big_magnitude_graphs": 50, "bb_compared": 200, "repeated_node_adds": 200, "grown_graphs": 200}
 ASSUMPTIONS = ["matching is compared on index and best probability (1e-9 relative), not on the path: neighbour order differs between "
                "backends and ties may be broken differently",
                "matcher configurations have no max_dist / max_dist_init (unbounded initial radius), as the property states"]
@@ -83,7 +83,23 @@ def gen_case(rng, i, tier):
                 dups.append([l, [p0[0], p0[1]]])
             else:
                 dups.append([l, [p0[0] + rng.choice([-3.0, 2.5, 7.0]), p0[1] + rng.choice([1.5, -4.0, 0.0])]])
-    return {"map": m, "boxes": boxes, "traces": traces, "cfgs": cfgs, "bulk": rng.random() < 0.6, "big": big, "dups": dups}
+    grow = None
+    if rng.random() < 0.4:
+        labs = [l for l, _ in m["nodes"]]
+        newl = max(labs) + rng.randint(1, 9)
+        p0 = c[rng.choice(labs)]
+        tgt = rng.sample(labs, min(len(labs), rng.randint(1, 3)))
+        ge = []
+        for t_ in tgt:
+            ge.append([t_, newl])
+            if rng.random() < 0.6:
+                ge.append([newl, t_])
+        # plus a new road between two existing nodes
+        a_, b_ = rng.sample(labs, 2)
+        if [a_, b_] not in m["edges"]:
+            ge.append([a_, b_])
+        grow = {"node": [newl, [p0[0] + rng.uniform(0.5, 2.0), p0[1] + rng.uniform(0.5, 2.0)]], "edges": ge}
+    return {"map": m, "boxes": boxes, "traces": traces, "cfgs": cfgs, "bulk": rng.random() < 0.6, "big": big, "dups": dups, "grow": grow}
 
 
 def close(a, b):
@@ -185,6 +201,37 @@ def check_case(ctx, case):
             b = sorted(l for l, _ in sm.all_nodes(bb=bb))
             if a != b or a != exp:
                 ctx.violation(f"C12:all_nodes(bb):{who(exp, a, b)}:{bx['cls']}", case, f"bb {bb}: inmem {a} sqlite {b} model {exp}")
+        # the maps grow after their first use (new node, new roads): every answer must follow
+        if case.get("grow"):
+            ctx.count("grown_graphs")
+            g = case["grow"]
+            for mp_ in (im, sm):
+                mp_.add_node(g["node"][0], tuple(g["node"][1]))
+                for a, b in g["edges"]:
+                    mp_.add_edge(a, b)
+            m2 = {"nodes": m["nodes"] + [g["node"]], "edges": m["edges"] + [e for e in g["edges"] if e not in m["edges"]], "latlon": False}
+            model = MapModel(m2)
+            labs = sorted(model.coords)
+            if im.size() != sm.size() or im.size() != len(labs):
+                ctx.violation("C12:size-differs:after-growing", case, f"inmem {im.size()} sqlite {sm.size()} model {len(labs)}")
+            for l in labs:
+                exp = sorted((b, model.coords[b]) for b in model.out_nbrs(l) if b != l)
+                a = sorted((x, tuple(p)) for x, p in im.nodes_nbrto(l) if x != l)
+                b = sorted((x, tuple(p)) for x, p in sm.nodes_nbrto(l) if x != l)
+                if a != b or a != exp:
+                    ctx.violation(f"C12:nodes_nbrto:{who(exp, a, b)}:after-growing", case, f"node {l}: inmem {a} sqlite {b} model {exp}")
+            for e in model.edges:
+                l2 = e[1]
+                exp = sorted((l2, model.coords[l2], b, model.coords[b]) for b in model.out_nbrs(l2) if b != l2)
+                a = sorted((x1, tuple(p1), x2, tuple(p2)) for x1, p1, x2, p2 in im.edges_nbrto(e) if x1 != x2)
+                b = sorted((x1, tuple(p1), x2, tuple(p2)) for x1, p1, x2, p2 in sm.edges_nbrto(e) if x1 != x2)
+                if a != b or a != exp:
+                    ctx.violation(f"C12:edges_nbrto:{who(exp, a, b)}:after-growing", case, f"edge {e}: inmem {a} sqlite {b} model {exp}")
+            exp = sorted((a, model.coords[a], b, model.coords[b]) for a, b in model.edges)
+            a = sorted((x1, tuple(p1), x2, tuple(p2)) for x1, p1, x2, p2 in im.all_edges())
+            b = sorted((x1, tuple(p1), x2, tuple(p2)) for x1, p1, x2, p2 in sm.all_edges())
+            if a != b or a != exp:
+                ctx.violation(f"C12:all_edges:{who(exp, a, b)}:after-growing", case, f"inmem {a[:4]}.. sqlite {b[:4]}.. model {exp[:4]}..")
         # matching
         for tr, cfg in zip(case["traces"], case["cfgs"]):
             ctx.count("match_pairs")
